@@ -78,7 +78,7 @@ def c09(tier):
     chk.distinct_outcomes = 2
     if nvalid == 0 or nvalid == len(decls):
         core.vacuous("C09: all declarations on one side of the validity rule")
-    chk.bounds.append("one-field declarations: full product for bases " + ("u3,u6,u8" if tier == 'quick' else "u3..u8") +
+    chk.bounds.append("one-field declarations: full product for bases " + ("u3..u8" if tier == 'quick' else "u2..u12") +
                       " (lo,hi in [0,N+1] incl. lo>hi; bit/bits form; types bool,u(w-1),u(w),u(w+1),iN; array K in {none,1,2,3}; stride in {omitted,w-1,w,w+1,N}; "
                       "two-range lists over a boundary set); boundary product for " + ("u16,u12,u32,u24,u64,u40,u128,u100,u127,u1" if tier == 'quick' else "every supported base") +
                       " (positions around 0,N-1,N,N+1,W-1,W,W+1; native widths; arrays ending at N-2..W); unsupported bases; both directions; "
@@ -157,9 +157,9 @@ def c14(tier):
                                      "the argument expressions are validated by the full-chain probe of the same struct, which must compile"]
     structs = []
     structs += S.plain_structs(2, 3)
-    structs += S.plain_structs(3, 3) if tier == 'thorough' else S.plain_structs(3, 2) + S.plain_structs(3, 3, accesses=('rw', 'r'))
+    structs += S.plain_structs(3, 3)
     if tier == 'thorough':
-        structs += S.plain_structs(4, 2)
+        structs += S.plain_structs(4, 2) + S.plain_structs(4, 3, accesses=('rw', 'r'))
     fam = S.bld_families()
     structs += fam
     arts = D.carrier()
@@ -236,9 +236,8 @@ def c14(tier):
                     "model_accepts": (offered if sq is None else (offered and S.chain_automaton(s, sq)))})
     if off_cnt == 0 or off_cnt == len(structs) or nexpect_fail == 0:
         core.vacuous("C14: no variation in builder existence / probe verdicts")
-    chk.bounds.append("existence: base u2 every struct of 1-3 fields (any range x access in {r,w,rw,none}) x {default, none}; base u3 " +
-                      ("every struct of 1-3 fields" if tier == 'thorough' else "every struct of 1-2 fields, 3-field structs with access in {rw, r}") +
-                      ("; base u4 every struct of 1-2 fields" if tier == 'thorough' else "") +
+    chk.bounds.append("existence: bases u2 and u3 every struct of 1-3 fields (any range x access in {r,w,rw,none}) x {default, none}" +
+                      ("; base u4 every struct of 1-2 fields and every 3-field struct with access in {rw, r}" if tier == 'thorough' else "") +
                       "; families: multi-range arrays with adjacent / non-adjacent element overlap and interleaving, complete covers by arrays, array vs scalar overlap, "
                       "self-overlapping range lists (all pairs on u4, boundary pairs on u8, three-range lists), read-only / write-only / unspecified gaps, completeness vs declared (not storage) width; "
                       "type-state: full chain, every proper prefix, every omission, adjacent swaps, duplicate step, double build; every call sequence up to length k+1 for representative layouts")
